@@ -8,7 +8,7 @@ from vlib.ref import script as R
 from vlib.util import call, expect_eq, must_raise, must_return
 
 PROPERTY_ID = "C19"
-OPTIMIZED = ['push-lengths', 'prefixes', 'binary', 'varint', 'scripts', 'edits']   # clauses run a second time under `python -O` (assert statements stripped)
+OPTIMIZED = ['push-lengths', 'prefixes', 'binary', 'varint', 'scripts', 'edits', 'non-minimal']   # clauses run a second time under `python -O` (assert statements stripped)
 RULE = ("scripts are lists of opcodes (bytes that are not push prefixes) and data elements "
         "described as (length, start, step) and expanded deterministically; parser inputs are "
         "prefixes / edits of valid serialisations and arbitrary byte strings")
@@ -100,6 +100,22 @@ def check_roundtrip(case, ctx):
     raw2 = must_return("C19/serialize/refused-valid", "raw_serialize after editing cmds in place", sc.raw_serialize)
     expect_eq("C19/serialize/stale-after-edit", "raw_serialize after cmds was edited in place", raw2,
               R.raw_serialize([b"\x07"] + cmds + [0xAC]))
+    # scripts that start empty and are filled by the caller; a later empty script is still empty
+    e1 = Script()
+    if e1.cmds:
+        raise Violation("C19/serialize/empty-script-shares-state", "a fresh Script() already holds %d commands: %r" % (len(e1.cmds), _summ(e1.cmds)))
+    for c in cmds:
+        e1.cmds.append(c)
+    e2 = Script()
+    raw_e1 = must_return("C19/serialize/refused-valid", "raw_serialize of a script built up from Script()", e1.raw_serialize)
+    raw_e2 = must_return("C19/serialize/refused-valid", "raw_serialize of a fresh Script()", e2.raw_serialize)
+    leaked = bool(e2.cmds)
+    if leaked:
+        del e2.cmds[:]          # keep the damage of a shared default list bounded before reporting it
+    if raw_e1 != want_raw or raw_e2 != b"" or leaked or e2.serialize() != b"\x00":
+        raise Violation("C19/serialize/empty-script-shares-state", "Script() filled with %d commands serialises to %d bytes (expected %d); a "
+                        "Script() created afterwards %s and serialised to %s (expected nothing)" % (
+                            len(cmds), len(raw_e1), len(want_raw), "held commands already" if leaked else "was empty", raw_e2.hex()[:40]))
     # trailing bytes must not be swallowed or change the result
     stream = BytesIO(ser + b"\x51\x00")
     back2 = must_return("C19/parse/refused-valid", "parse with trailing bytes", Script.parse, stream)
@@ -220,6 +236,27 @@ def gen_binary(tier):
     return st.fixed_dictionaries({"buf": st.builds(lambda h, t: h + t, head, st.binary(max_size=40))})
 
 
+# ------------------------------------------------------------------ clause: well-formed but non-minimal encodings
+def gen_nonminimal(tier):
+    data = lambda lo, hi: st.integers(lo, hi).flatmap(lambda n: st.binary(min_size=n, max_size=n))   # noqa: E731
+    tok = st.one_of(
+        st.sampled_from(sorted(OPCODES)).map(lambda o: bytes([o])),
+        data(1, 75).map(lambda d: bytes([len(d)]) + d),
+        # PUSHDATA1 / PUSHDATA2 with any length they can carry, including 0 and lengths a shorter form would hold
+        st.one_of(st.just(b""), data(0, 3), data(0, 80), data(76, 255)).map(lambda d: b"\x4c" + bytes([len(d)]) + d),
+        st.one_of(st.just(b""), data(0, 3), data(0, 300), data(256, 520)).map(lambda d: b"\x4d" + len(d).to_bytes(2, "little") + d),
+    )
+    return st.fixed_dictionaries({"toks": st.lists(tok, min_size=1, max_size=6), "cut": st.one_of(st.none(), st.integers(0, 40))})
+
+
+def check_nonminimal(case, ctx):
+    raw = b"".join(case["toks"])
+    buf = R.encode_varint(len(raw)) + raw
+    if case["cut"] is not None:
+        buf = buf[: max(0, len(buf) - 1 - case["cut"] % len(buf))]
+    _general_oracle(buf, ctx, "C19/non-minimal")
+
+
 # ------------------------------------------------------------------ clause: varints
 VAR_BOUNDS = [0, 1, 0xFC, 0xFD, 0xFE, 0xFF, 0x100, 0xFFFF, 0x10000, 0x10001, 0xFFFFFFFF, 2 ** 32,
               2 ** 32 + 1, 2 ** 63, 2 ** 64 - 2, 2 ** 64 - 1]
@@ -326,6 +363,13 @@ def clauses():
                "returns, the strict reference parser must accept the same bytes with the same commands",
                gen=gen_edits, nontrivial=lambda c: True,
                n={"quick": 6000, "thorough": 300000}, shards={"quick": 4, "thorough": 16}),
+        Clause("non-minimal", check_nonminimal,
+               "byte strings built from a grammar of well-formed tokens - opcodes, bare pushes, PUSHDATA1 and PUSHDATA2 with "
+               "every length they can carry incl. 0 and lengths a shorter form would hold - behind a correct length "
+               "prefix, whole or cut short: the parser must return exactly the strict parser's commands (every declared "
+               "byte accounted for) or refuse",
+               gen=gen_nonminimal, nontrivial=lambda c: any(t[:1] in (b"\x4c", b"\x4d") for t in c["toks"]),
+               n={"quick": 3000, "thorough": 150000}, shards={"quick": 8, "thorough": 16}),
         Clause("binary", check_binary,
                "arbitrary byte strings with hostile heads (varint markers, push headers); same oracle",
                gen=gen_binary, nontrivial=lambda c: len(c["buf"]) >= 2,
